@@ -29,7 +29,7 @@ ReqName(t) ==
     [] t.pc = "bhead"  -> <<"blob_head", t.node>>
     [] t.pc = "bmount" -> <<"mount_post", t.node>>
     [] t.pc \in {"bmdel", "bdel"} -> <<"upload_delete", "">>
-    [] t.pc = "bget"   -> <<"blob_get", t.node>>
+    [] t.pc \in {"bget", "brewind"} -> <<"blob_get", t.node>>
     [] t.pc = "bpost"  -> <<"upload_post", t.node>>
     [] t.pc = "bpost2" -> <<"upload_post", "">>
     [] t.pc \in {"bput", "bput2"} -> <<"upload_put", t.node>>
